@@ -149,10 +149,24 @@ ICommitRet ==
         => {s \in SeqToSet(Ev.segs) : (CHOOSE e \in com : e.sid = s.sid).alive # SeqToSet(s.ids)} = {})
   /\ UNCHANGED <<dq, unc, com, merges, meta, fin, commitOp, reconcile, metaCom>> /\ Frame
 
+\* Events of a killed updater can still arrive after a rollback (its queued tasks run to the end):
+\* they talk about segments the rebuilt registers do not know.  Such an event is skipped; it can
+\* only be one that mentions a segment id the model has never been told about (neither in a
+\* register, nor finalised, nor the result of a running merge).
+ModelSids == {e.sid : e \in unc \cup com}
+ObsSids == {o.seg : o \in SeqToSet(Ev.unc) \cup SeqToSet(Ev.com)}
+IStale ==
+  /\ \/ /\ Ev.e = "merge_start" /\ ~(SeqToSet(Ev.segs) \subseteq ModelSids)
+     \/ /\ Ev.e = "regs" /\ Ev.after \in {"add_segment", "remove_empty_segments", "commit"}
+        /\ ~(ObsSids \subseteq ModelSids \cup DOMAIN fin)
+     \/ /\ Ev.e = "regs" /\ Ev.after = "end_merge"
+        /\ ~(\E m \in merges : SeqToSet(m.order) = ModelSids \ ObsSids)
+  /\ UNCHANGED <<dq, unc, com, merges, meta, fin, commitOp, reconcile, metaCom>> /\ Frame
+
 INext ==
   /\ l <= Len(Rec) /\ l' = l + 1
   /\ (IReset \/ IFresh \/ IDel \/ ISegFinal \/ IRegsAdd \/ ICommitBegin \/ IRegsCommit \/ IRegsRemoveEmpty
-      \/ IMergeStart \/ IReconcile \/ IRegsEndMerge \/ ICommitRet)
+      \/ IMergeStart \/ IReconcile \/ IRegsEndMerge \/ ICommitRet \/ IStale)
 
 IInit == Init /\ l = 1 /\ fin = <<>> /\ commitOp = 0 /\ reconcile = 0 /\ metaCom = {}
 ISpec == IInit /\ [][INext]_ivars
